@@ -273,7 +273,11 @@ func caseHostile(t *testing.T, tp *simrt.Tape, c *Ctx) (res Result) {
 			h.opRun()
 		case op < 10:
 			h.opReset()
+			respawn := tp.Draw("hos.respawn.kind", 4) // all, all, a subset, none
 			for i := 0; i < len(h.data) && !h.dead; i++ {
+				if respawn == 3 || (respawn == 2 && tp.Draw("hos.respawn.pick", 2) == 0) {
+					continue
+				}
 				h.opSpawn(i, genAnyField(tp, "hos.off", M))
 			}
 		case op < 11:
